@@ -70,3 +70,26 @@ Proof. intros norm enum e v early early'. apply (component_equals_partial RInst 
 
 Lemma at_equals_located_R : C06_at_equals_located.
 Proof. intros norm enum e p early o o' Hnd Ho Ho'. exact (at_equals_located RInst RInst_equiv norm enum e p early o o' Hnd Ho Ho'). Qed.
+
+(** ** [Differential(e).at(p)] and [LocatedDifferential(e, p)] succeed or fail together, with the same
+    partials: the late [at] evaluates the original first and then does exactly what the constructor
+    of LocatedDifferential does; where the evaluation fails, so does the reverse sweep (C07_rev),
+    and nothing but DomainError can come out of either (C14_no_missing, C17_no_pyerr). *)
+From Coq Require Import Reals.
+From SM Require Import Spec.
+From SM.proofs Require Import EvalSound OutcomeKinds Glue.
+
+Lemma at_located_same_outcome : C06_at_located_same_outcome.
+Proof.
+  intros norm enum e p Hwf Hsup.
+  unfold diff_at, mk_differential. cbn [de dsps].
+  destruct (eval RInst p e) as [w| | |k] eqn:He; cbn [bind].
+  - reflexivity.
+  - (* the evaluation raises DomainError: so does the reverse sweep *)
+    pose proof (rev_same_kind eval_total p e (enum e) Hwf Hsup) as [Hv Hd].
+    change (eval RInst p e) with (evalR p e) in He. rewrite He in Hv, Hd. cbn in Hv, Hd.
+    unfold mk_located. destruct (numeric_partials RInst p e (enum e)) as [nps| | |k]; cbn in *; try discriminate.
+    reflexivity.
+  - exfalso. pose proof (no_missing eval_no_missing p e 1%positive Hsup) as [H _]. apply H. exact He.
+  - exfalso. pose proof (no_pyerr eval_no_pyerr p e 1%positive k Hwf) as [H _]. apply H. exact He.
+Qed.
